@@ -64,6 +64,9 @@ type Model struct {
 	Helpers    int
 	// DynTypesOf returns the dynamic types an interface value can hold (from the points-to engine).
 	DynTypesOf func(v ssa.Value) ([]types.Type, bool)
+	// EdgeInfeasible: the branch on cond can never go the given way (a package-wide invariant
+	// established by the caller, e.g. the fixed length of a field's list).
+	EdgeInfeasible func(cond ssa.Value, taken bool) bool
 }
 
 func (m *Model) problem(f string, a ...interface{}) {
